@@ -11,6 +11,7 @@ import (
 	"path/filepath"
 	"reflect"
 	"strconv"
+	"time"
 
 	sentinel "github.com/alibaba/sentinel-golang/api"
 	"github.com/alibaba/sentinel-golang/core/base"
@@ -51,11 +52,11 @@ func (P) Engine() string { return "E3" }
 
 func (P) Describe() harness.Description {
 	return harness.Description{
-		MustHit: []string{"undecodable_payload", "payload_with_null_element", "empty_payload", "identical_redelivery", "redelivery_keeps_controller_state", "file_event_delivered", "file_event_duplicated", "file_removed", "file_renamed", "file_converged"},
+		MustHit: []string{"undecodable_payload", "payload_with_null_element", "empty_payload", "identical_redelivery", "redelivery_keeps_controller_state", "file_event_delivered", "file_event_duplicated", "file_removed", "file_renamed", "file_moved_away_and_back", "file_converged"},
 		Level:   "exploration",
 		Rule: "case = (table of rule specifications for the five parsers: valid, field-wise invalid, never-blocking / always-blocking; 5-30 deliveries to property handlers wired to the REAL rule managers: the wire-format JSON of a rule list, the same with a null element, a wrongly typed element, truncated at a drawn byte, followed by trailing bytes (a second document, a stray bracket, the tail of an older file), empty, 'null', an object instead of an array; immediate identical redelivery; probes). " +
 			"Oracle: Handle never panics out; undecodable => error returned and the previous rules stay in force; decodable => exactly its valid rules are reported, field for field (wire round trip), and govern probe traffic; empty => cleared; identical redelivery => nothing changes, including controller state (a private-window flow rule keeps its count). " +
-			"File source (40% of runs): a real RefreshableFileDataSource on a scratch file with the stub watcher; ops write / truncate / rename / remove; the simulator delivers each file-system event delayed, duplicated or coalesced; after quiescence following the last delivered event the managers equal the file's content (previous rules if undecodable), and are empty after remove / rename. " +
+			"File source (40% of runs): a real RefreshableFileDataSource on a scratch file with the stub watcher; ops write / truncate / rename / remove / move away and back unchanged while the source retries its watch; the simulator delivers each file-system event delayed, duplicated or coalesced; after quiescence following the last delivered event the managers equal the file's content (previous rules if undecodable), and are empty after remove / rename. " +
 			"non-trivial = a good payload, an undecodable one and a redelivery occurred in one run; distinct = hash(config, ops)",
 		Assumptions: []string{"the hotspot wire format is datasource.HotspotRule (it has no ParamKey field); specific items use the documented value kinds", "events are delivered one at a time with quiescence (synctest.Wait) in between"},
 		Real:        []string{"ext/datasource handlers, parsers, updaters, hotspot converter", "ext/datasource/file.RefreshableFileDataSource incl. its watcher goroutine", "all rule managers", "api.Entry for probes", "real scratch file"},
@@ -113,7 +114,13 @@ func (P) Gen(rng *sim.Rng, tier string) *harness.Case {
 				case 0:
 					ops = append(ops, harness.Op{K: "fremove"})
 				case 1:
-					ops = append(ops, harness.Op{K: "frename"})
+					if rng.Chance(0.5) {
+						// the file is moved away and moved back UNCHANGED (same content, size and modification time) while
+						// the source is still retrying to watch it again
+						ops = append(ops, harness.Op{K: "fmoveback", N: uint64(rng.Range(1, 3))})
+					} else {
+						ops = append(ops, harness.Op{K: "frename"})
+					}
 				case 2:
 					ops = append(ops, harness.Op{K: "fevent", N: uint64(rng.Range(1, 2))})
 				default:
@@ -700,6 +707,55 @@ func (P) Exec(c *harness.Case) *harness.Outcome {
 		case "fevent":
 			if !deliverEvent(step, int(op.N)) {
 				return o
+			}
+		case "fmoveback":
+			if fsrc == nil || fsrc.gone {
+				continue
+			}
+			for len(fsrc.pending) > 0 {
+				if !deliverEvent(step, 1) {
+					return o
+				}
+			}
+			wt := simfsnotify.Last()
+			if wt == nil || wt.Closed() {
+				continue
+			}
+			_ = os.Rename(fsrc.path, fsrc.path+".old")
+			wt.AddErr = int(op.N) // like inotify, the stub cannot watch a path that does not exist: the source retries once a second
+			moved := false
+			env.Clock.OnSleep = func(time.Duration) {
+				if !moved { // during the source's first wait the file comes back, unchanged
+					moved = true
+					_ = os.Rename(fsrc.path+".old", fsrc.path)
+				}
+			}
+			received := false
+			ok := harness.Call(o, "C18.panic", step, func() {
+				select {
+				case wt.Events <- simfsnotify.Event{Name: fsrc.path, Op: simfsnotify.Rename}:
+					received = true
+				default:
+				}
+				Quiesce()
+			})
+			env.Clock.OnSleep = nil
+			wt.AddErr = 0
+			if !ok {
+				return o
+			}
+			if !moved {
+				_ = os.Rename(fsrc.path+".old", fsrc.path)
+			}
+			o.Fault("file_moved_away_and_back")
+			if received {
+				// the source cleared the rules on the rename, watched the path again and re-read the file
+				fsrc.st.has = false
+				w.apply(cfg.FileM, nil, nil)
+				if moved && fsrc.dec && len(fsrc.content) > 0 && string(fsrc.content) != "null" {
+					fsrc.st.last, fsrc.st.has = append([]byte{}, fsrc.content...), true
+					w.apply(cfg.FileM, fsrc.list, fsrc.desc)
+				}
 			}
 		case "fremove", "frename":
 			if fsrc == nil || fsrc.gone {
